@@ -172,7 +172,11 @@ def build(n, edges, names, validate=True):
         if validate and k == len(edges) - 1 and len(edges) >= 2:
             gen.stress(g, ('c18-pre', n, tuple(edges), tuple(names[:n])))
         if (n + k) % 3 == 0:
-            g.add_edge(names[a], names[b], edge_type='->', validate=validate)      # the type spelled as a plain string
+            # the type spelled as a plain string; every other time through the by-pair form
+            if (n + k) % 2:
+                g.add_edge_by_pair((names[a], names[b]), edge_type='->', validate=validate)
+            else:
+                g.add_edge(names[a], names[b], edge_type='->', validate=validate)
         elif validate and (n + 3 * k + len(edges)) % 7 == 0:
             # the edge arrives with another type and is directed afterwards
             g.add_edge(names[a], names[b], edge_type=['o>', '--', '<>', 'oo', 'o-'][(n + k) % 5])
